@@ -7,7 +7,7 @@
     `Idx.Holds i xs` every installed map lists, per key, exactly the matching elements of `xs`, in order
 -/
 import AHP.Lemmas.Index
-namespace AHP
+namespace AHP.G3
 open Idx
 
 def matchU (p : Elem → Bool) (xs : List Elem) : List Nat := (xs.filter p).map (·.uid)
@@ -445,4 +445,4 @@ end Idx
 /-- "class lists carry no repeated name" — what the class index presupposes to list an element once. -/
 def ClassesNodup (doc : Node) : Prop := ∀ e ∈ creationOrder doc, e.classes.Nodup
 
-end AHP
+end AHP.G3
